@@ -499,11 +499,15 @@ def _root_set(rng):
             room -= 1
         elif k < 0.9:
             roots.append(rng.choice([-1, 1]) * rng.uniform(2, 50))
-            if rng.random() < 0.3 and n <= 3:
-                roots[-1] = rng.choice([-1, 1]) * 10.0 ** rng.uniform(3, 12)      # a root very far out of range
-                tags.add('far-root')
         else:
             roots.append(rng.choice([0.0, 1.0, 0.5, 0.25]))
+    if not tags and len(roots) <= 2 and rng.random() < 0.5:
+        # a root very far out of range next to ordinary ones.  Only for polynomials of degree <= 3 with simple,
+        # well separated real roots: an eigenvalue solver is backward stable in the norm of the companion matrix,
+        # which such a root makes huge - next to a near-double or near-real complex pair a small root is then
+        # legitimately returned with an error of 1e-6 (seen in the thorough tier; not a lost root)
+        roots.append(rng.choice([-1, 1]) * 10.0 ** rng.uniform(3, 12))
+        tags.add('far-root')
     # numpy returns roots roughly ordered; place the cluster at a random rank by shuffling magnitudes
     rng.shuffle(roots)
     deg = sum(2 if isinstance(r, complex) else 1 for r in roots)
